@@ -1,6 +1,12 @@
 // C16 -- main TU + self-check of the harness' own quadrature (closed-form monomial integrals)
 #include "c16.hpp"
+#include <kernel/util/verif_hooks.hpp>
+#include <pthread.h>
 using namespace c16;
+
+// debugging aid: C16_TRACE=1 prints every ThreadFence / worker hook event
+static void trace_cb(int point, const void* obj, std::uint64_t a, std::uint64_t b)
+{ std::fprintf(stderr, "hook t=%lx p=%d obj=%p a=%lu b=%lu\n", (unsigned long)pthread_self(), point, obj, (unsigned long)a, (unsigned long)b); }
 
 // enumerated: k = 4*(n-1) + shape : Gauss rule with n points must integrate the monomials exactly (closed forms:
 // hypercube [0,1]^d: prod 1/(e_i+1); simplex: prod e_i! / (sum e_i + d)!) on an affinely mapped reference cell.
@@ -40,4 +46,9 @@ VH_FAMILY(selfcheck)
   default: selfcheck_shape<Shape::Simplex<3>>(c, n); break;
   }
 }
-VH_FEAT_MAIN
+int main(int argc, char** argv)
+{
+  FEAT::Runtime::ScopeGuard guard(argc, argv);
+  if(std::getenv("C16_TRACE")) FEAT::Verif::callback().store(&trace_cb, std::memory_order_release);
+  return vh::main_impl(argc, argv);
+}
